@@ -58,12 +58,14 @@ S1 = 'Sheet1!'
 DICT_CELLS = {
     S1 + 'A1': 2, S1 + 'A2': 'x', S1 + 'A3': 1.5,
     S1 + 'B1': '=A1+A3', S1 + 'B2': '=A2&"é"', S1 + 'B3': '=A1/0',
-    S1 + 'B4': '=SUM(A1:A3)', S1 + 'B5': '=A1>A3',
+    # (an overflowing product: infinity in most states, finite in some)
+    S1 + 'B4': '=SUM(A1:A3)*1E+308', S1 + 'B5': '=A1>A3',
 }
 VALUES = [
     ('int', 7), ('huge', 1.5e300), ('tiny', 2.5e-300), ('negzero', -0.0),
     ('text', 'hé "q" \'s\''), ('bool', True),
-    ('date', datetime.datetime(2021, 3, 4)), ('blank', None),
+    # a date/time with a fractional second (as openpyxl delivers them)
+    ('date', datetime.datetime(2021, 3, 4, 5, 6, 7, 679000)), ('blank', None),
 ]
 
 
@@ -134,10 +136,20 @@ def apply(model, ev, op):
     return lib.observe(ev.set_cell_value, op[1], VALUES[op[2]][1])
 
 
+def exact(v):
+    """Text that identifies a stored value exactly (lib.norm looks at values
+    the way Excel compares them: a date is its serial there)."""
+    inner = getattr(v, 'value', v) if not isinstance(v, (str, bytes)) else v
+    if isinstance(inner, datetime.datetime):
+        return '%s:%s' % (type(v).__name__, inner.isoformat())
+    return '%s:%r' % (type(v).__name__, inner)
+
+
 def snapshot(model):
     cells = {}
     for a, c in model.cells.items():
-        cells[a] = (lib.norm(c.value) if not isinstance(c.value, dict)
+        cells[a] = ('%s|%s' % (lib.norm(c.value), exact(c.value))
+                    if not isinstance(c.value, dict)
                     else 'dict:%r' % sorted(c.value),
                     c.formula.formula if c.formula is not None else None)
     names = {}
